@@ -14,6 +14,8 @@ for i in range(1, 21):
     san = getattr(m, 'SAN', {})
     out.append('### %s' % pid)
     out.append('* workload / class rule: %s' % m.RULE)
+    from vmon.histories import HIST
+    out.append('* object histories driven: %s' % HIST[pid])
     out.append('* deciding monitors: %s' % ', '.join('`%s`' % x for x in getattr(m, 'REQUIRED', [])))
     out.append('* trusted: %s' % '; '.join(getattr(m, 'ASSUMPTIONS', [])))
     out.append('* sanitizer shards (count, 1/stride sample): quick %s, thorough %s%s' % (san.get('quick'), san.get('thorough'),
